@@ -29,6 +29,9 @@ REGISTRY = {
     "Spaces_g": ("leaf", lambda: Spaces(0, "g")),
     "Spaces_a": ("leaf", lambda: Spaces(0, "a")),
     "Spaces_z": ("leaf", lambda: Spaces(0, "z")),
+    "Spaces_0": ("leaf", lambda: Spaces(0, "0")),       # digit 'smallest': run codes cross from digits into letters
+    "Spaces_5": ("leaf", lambda: Spaces(0, "5")),
+    "Spaces_9": ("leaf", lambda: Spaces(0, "9")),
     "DecInt": ("leaf", lambda: DecInt()),
     "HexInt": ("leaf", lambda: HexInt()),
     "IntSpaces": ("leaf", lambda: IntSpaces(-1, max_int=4, max_num_spaces=2)),
